@@ -53,7 +53,7 @@ func plain(n int) func(string) []pass {
 
 var plans = map[string]propPlan{
 	"C01": {"exploration", func(string) []pass {
-		return []pass{{Name: "plain", Shards: 12}, {Name: "race", Race: true, Shards: 4}}
+		return []pass{{Name: "plain", Shards: 8}, {Name: "plain-newyork", Shards: 4, TZ: "America/New_York"}, {Name: "race", Race: true, Shards: 4}}
 	}},
 	"C02": {"exploration", plain(16)},
 	"C03": {"exploration", plain(16)},
